@@ -82,7 +82,8 @@ def exec_session(ctx, layouts, plan, tag, rng):
         s = ai.Session(root, layouts, contents, rng)
         runs, infos = [], []
         for st in plan:
-            run, info = s.run(st["imgs"], st["pub"], st.get("relative", True), st.get("spaces", False))
+            run, info = s.run(st["imgs"], st["pub"], st.get("relative", True), st.get("spaces", False),
+                              st.get("child", False))
             runs.append(run)
             infos.append(info)
         return {"kind": "session", "contents": contents,
@@ -130,6 +131,13 @@ def run(ctx):
     if never:
         raise core.MachineryError("vacuity: actions never taken: %s" % never)
     res.coverage["uncovered_actions"] = never
+    # the other bounds, design check only: quick also checks the thorough tier's images (2 x 3 bytes,
+    # R = 3, 1..4 images per run); thorough also checks three runs in a row
+    for cfg in ctx.pick(["MC_AppImage_full.cfg"], ["MC_AppImage_runs3.cfg"]):
+        rx = tlc.check("MC_AppImage", cfg, workers=4)
+        if rx.violated:
+            raise core.MachineryError("AppImage model (%s) violates %s" % (cfg, rx.violated))
+        res.add_tlc(rx, "%s exhaustive" % cfg)
     negs = []
     for (cfg, inv, why), rn in neg_checks():
         if inv not in rn.violated:
@@ -181,7 +189,8 @@ def run(ctx):
     rng.shuffle(order)
     n_sessions = ctx.pick(min(len(order), 300), min(len(order), 6000))
     keyrot = 0
-    for si in order[:n_sessions]:
+    n_child = ctx.pick(3, 40)
+    for pos, si in enumerate(order[:n_sessions]):
         b = msessions[si]
         classes = sorted(set(b["contents"]))
         keys = {c: image_keys[(keyrot + n) % len(image_keys)] for n, c in enumerate(classes)}
@@ -195,7 +204,7 @@ def run(ctx):
         if contents_of(lays) != list(b["contents"]):
             raise core.MachineryError("concretisation does not realise the content classes %s" % b["contents"])
         plan = [{"imgs": st["imgs"], "pub": st["pub"], "relative": rng.random() < 0.5,
-                 "spaces": rng.random() < 0.3} for st in b["plan"]]
+                 "spaces": rng.random() < 0.3, "child": pos < n_child} for st in b["plan"]]
         t, infos = exec_session(ctx, lays, plan, "m%d" % si, rng)
         for st in plan:
             signed.update(chosen[i - 1] for i in st["imgs"])
@@ -212,6 +221,7 @@ def run(ctx):
         add(t, {"kind": "session", "lays": lays, "plan": plan, "infos": infos, "src": "model-bulk"})
     res.coverage["behaviours_replayed"] = len(mlayouts) + n_sessions
     res.coverage["model_sessions_replayed"] = n_sessions
+    res.coverage["sessions_run_in_a_child_interpreter_via___main__"] = min(n_child, n_sessions)
     res.coverage["model_layouts_signed_by_signonetime"] = len(signed)
 
     # 4. random tier: 1..8 areas, record lengths 1..255, several zones
@@ -245,28 +255,28 @@ def run(ctx):
     res.coverage["random_sessions"] = n_rs
 
     # 5. TLC judges every recorded execution (and must reject corrupted copies of accepted ones)
-    n_self = add_corruptions(traces, meta, add)
-    judge(ctx, res, traces, meta)
-    res.coverage["selftest_corrupted_traces_rejected"] = n_self
+    accepted = judge(ctx, res, traces, meta)
+    res.coverage["selftest_corrupted_traces_rejected"] = selftest(accepted)
     return res
 
 
-def add_corruptions(traces, meta, add):
-    """DESIGN 3.7(a): copies of recorded traces with one observed field corrupted; the trace spec must
-    reject each with the named clause (checked in judge; a miss is a machinery failure)."""
+def selftest(accepted):
+    """DESIGN 3.7(a): copies of accepted traces with one observed field corrupted; the trace spec must
+    reject each with the named clause (a miss is a machinery failure)."""
     import copy
-    lay = next(t for t in traces if t["kind"] == "layout" and t["small"] and len(t["hins"]) >= 1
-               and len(set(t["hins"][0])) >= 2 and all(r["ok"] for r in t["reports"]))
-    ses = next(t for t in traces if t["kind"] == "session" and len(t["runs"]) >= 2
-               and len(set(t["contents"])) >= 2)
-    n = 0
+    lay = next((t for t in accepted if t["kind"] == "layout" and t["small"] and len(t["hins"]) >= 1
+                and len(set(t["hins"][0])) >= 2 and all(r["ok"] for r in t["reports"])), None)
+    ses = next((t for t in accepted if t["kind"] == "session" and len(t["runs"]) >= 2
+                and len(set(t["contents"])) >= 2 and all(r["hashes"] for r in t["runs"])), None)
+    cases = []
 
     def corrupt(base, fn, clause, at):
-        nonlocal n
+        if base is None:
+            return
         t = copy.deepcopy(base)
         fn(t)
-        add(t, {"kind": "selftest", "expect": (clause, at), "src": "selftest"})
-        n += 1
+        t["id"] = len(cases) + 1
+        cases.append((t, (clause, at)))
 
     def flip(t):
         t["reports"][0]["digest"][5] ^= 1
@@ -331,7 +341,14 @@ def add_corruptions(traces, meta, add):
     def wronghash(t):
         t["runs"][0]["hashes"][0]["digest"][0] ^= 0x80
     corrupt(ses, wronghash, "DigestOk", 1)
-    return n
+    if not cases:
+        return 0
+    verdicts, _ = tlc.validate("TraceAppImage", "Trace_AppImage.cfg", [t for t, _ in cases], shards=1)
+    for t, expect in cases:
+        v = verdicts[t["id"]]
+        if v["ok"] or (v["clause"], v.get("at")) != expect:
+            raise core.MachineryError("trace spec does not reject a corrupted trace as %s: %s" % (expect, v))
+    return len(cases)
 
 
 def relayout(base, rng):
@@ -360,21 +377,20 @@ def judge(ctx, res, traces, meta):
     verdicts, stats = tlc.validate("TraceAppImage", "Trace_AppImage.cfg", payload, shards=8)
     res.checker_cmds.append("tlc -workers 1 -config Trace_AppImage.cfg TraceAppImage (x%d shards)" % stats["jvms"])
     accepted, drift = 0, 0
+    accepted_traces = []
     classes = set()
     for t in traces:
         v = verdicts[t["id"]]
         m = meta[t["id"]]
-        if m["kind"] == "selftest":
-            if v["ok"] or (v["clause"], v.get("at")) != m["expect"]:
-                raise core.MachineryError("trace spec does not reject a corrupted trace as %s: %s" % (
-                    m["expect"], v))
-            continue
         if m["kind"] == "layout":
             classes.add("layout " + m["lay"].klass() + " " + m["src"])
         else:
-            classes.add("session runs=%d %s" % (len(m["plan"]), m["src"]))
+            classes.add("session runs=%d %s%s" % (len(m["plan"]), m["src"],
+                                                  " child" if m["plan"][0].get("child") else ""))
         if v["ok"]:
             accepted += 1
+            if sum(1 for x in accepted_traces if x["kind"] == t["kind"]) < 200:
+                accepted_traces.append(t)
             if v.get("clause"):
                 drift += 1
             continue
@@ -406,12 +422,10 @@ def judge(ctx, res, traces, meta):
     res.add_validation(stats, accepted)
     res.coverage["model_drift"] = drift
     res.coverage["distinct_abstract_classes_hit"] = len(classes)
-    res.coverage["traces_total"] = len([t for t in traces if meta[t["id"]]["kind"] != "selftest"])
+    res.coverage["traces_total"] = len(traces)
     shown = {}
     for t in traces:
         m = meta[t["id"]]
-        if m["kind"] == "selftest":
-            continue
         key = (m["kind"], m["src"])
         if key in shown:
             continue
@@ -426,6 +440,7 @@ def judge(ctx, res, traces, meta):
                                   "files": [[f["path"], f["kind"], f["key"], f["by"], f["over"], f["w"]]
                                             for f in r["files"] if f["path"]["k"] != "img"]}
                                  for r in t["runs"]]}, cap=8)
+    return accepted_traces
 
 
 def replay_data(m):
